@@ -18,7 +18,7 @@ use super::padding::PANICS;
 /// Dial events seen by the hook controller (ip cells, port), in order.
 pub static DIALS: Mutex<Vec<(Vec<u8>, u16)>> = Mutex::new(Vec::new());
 
-struct Built { greeting: Vec<Vec<u8>>, request: Vec<Vec<u8>>, dest: Option<(Vec<u8>, u16)> }
+struct Built { greeting: Vec<Vec<u8>>, request: Vec<Vec<u8>>, dest: Option<(Vec<u8>, u16)>, name: Option<(String, std::net::IpAddr)> }
 
 fn build(r: &mut Rng, c: &Value, accept: &net::Target, accept6: &Option<net::Target>, refuse: std::net::SocketAddr) -> Built {
     let g = |k: &str| c.get(k).and_then(|x| x.as_i64()).unwrap_or(0);
@@ -39,18 +39,28 @@ fn build(r: &mut Rng, c: &Value, accept: &net::Target, accept6: &Option<net::Tar
     if atyp == 4 && s("target") == "accept" && !mapped { if let Some(t6) = accept6 { target = t6.addr; } }
     let mut addr: Vec<u8> = Vec::new();
     let mut dest_ip: Vec<u8> = Vec::new();
+    let mut name: Option<(String, std::net::IpAddr)> = None;
     match atyp {
         1 => { if let std::net::IpAddr::V4(a) = target.ip() { addr.extend_from_slice(&a.octets()); dest_ip = a.octets().to_vec(); } }
         4 => { // the accepting target listens on IPv4 only: an IPv6 request is a "refuse" destination unless ::1 is bound; use v4-mapped-free ::1
                let a = if mapped { std::net::Ipv4Addr::LOCALHOST.to_ipv6_mapped() } else { std::net::Ipv6Addr::LOCALHOST };
                addr.extend_from_slice(&a.octets()); dest_ip = a.octets().to_vec(); }
-        3 => { if g("namelen") > 0 { let name = "localhost"; addr.push(name.len() as u8); addr.extend_from_slice(name.as_bytes()); dest_ip = vec![]; } else { addr.push(0); } }
+        // "some length" of the abstract case is "localhost" (really resolved) or a name of a boundary length (1, 2, 63, 64, 253,
+        // 254, 255 bytes: the whole range of the one-byte length field) that the resolver cache is pre-seeded with
+        3 => { if g("namelen") > 0 {
+                   if r.chance(1, 2) { let name = "localhost"; addr.push(name.len() as u8); addr.extend_from_slice(name.as_bytes()); dest_ip = vec![]; }
+                   else { let n = *r.pick(&[1usize, 2, 63, 64, 253, 254, 255]);
+                          let nm: String = (0..n).map(|i| if i % 32 == 31 && i + 1 < n { '.' } else { (b'a' + (i % 23) as u8) as char }).collect();
+                          addr.push(n as u8); addr.extend_from_slice(nm.as_bytes());
+                          if let std::net::IpAddr::V4(a) = target.ip() { dest_ip = a.octets().to_vec(); }
+                          name = Some((nm, target.ip())); }
+               } else { addr.push(0); } }
         _ => { addr.extend_from_slice(&[1, 2, 3, 4]); }
     }
     let port = target.port();
     let mut rf: Vec<Vec<u8>> = vec![vec![rver, cmd, 0, atyp], addr, port.to_be_bytes().to_vec()];
     match s("rtrunc").as_str() { "hdr" => { rf.truncate(1); rf[0].truncate(r.range(1, 3) as usize); } "addr" => { rf.truncate(2); let m = rf[1].len(); rf[1].truncate(m.saturating_sub(1)); } "port" => { rf[2].truncate(1); } _ => {} }
-    Built { greeting: gf, request: rf, dest: Some((dest_ip, port)) }
+    Built { greeting: gf, request: rf, dest: Some((dest_ip, port)), name }
 }
 
 async fn send(s: &mut TcpStream, fields: &[Vec<u8>], frag: &str) -> bool {
@@ -83,6 +93,7 @@ async fn one_case(log: &Log, r: &mut Rng, c: &Value, socks: &str, have6: bool) {
     let accept6 = &(if have6 && c.get("atyp").and_then(|x| x.as_i64()) == Some(4) { Some(net::start_target("[::1]:0", TargetMode::Echo).await) } else { None });
     let refuse = net::refusing_addr();
     let b = build(r, c, accept, accept6, refuse);
+    if let Some((nm, ip)) = &b.name { anytls_rs::util::dns_cache::verif_preseed(nm, vec![std::net::SocketAddr::new(*ip, 7)]).await; }
     let myports: Vec<u16> = vec![accept.addr.port(), refuse.port(), accept6.as_ref().map(|t| t.addr.port()).unwrap_or(0)];
     let frag = c.get("frag").and_then(|x| x.as_str()).unwrap_or("whole").to_string();
     let truncated_g = c.get("gtrunc").and_then(|x| x.as_str()) != Some("none");
